@@ -15,7 +15,8 @@
    that each of the two well-formedness hypotheses is necessary for the model. *)
 From Coq Require Import List Arith NArith.
 From Discv5V Require Import Generated.Params Lib.ListX Model.KBucket
-  Proofs.KBucketInv Proofs.KBucketTable Proofs.KBucketPending Proofs.Subnet.
+  Proofs.KBucketInv Proofs.KBucketTable Proofs.KBucketPending Proofs.Subnet Proofs.SubnetExamples
+  Proofs.SubnetGap.
 Import ListNotations.
 
 Theorem C16_limits_are_the_rust_constants :
@@ -48,3 +49,75 @@ Theorem C16_no_ip_unaffected :
   ip_bucket_filter v others = true /\ ip_table_filter v others = true.
 Proof. intros v others H. split; exact (no_ip_unaffected _ v others H). Qed.
 Print Assumptions C16_no_ip_unaffected.
+
+(* ---------------------------------------------------------------------------------------------- *)
+(* "A change that would exceed a limit is refused", and the table API for records without an IPv4
+   address (gap audit, notes/gap_audit_C14_C20.md) *)
+
+(* The filter of src/kbucket/filter.rs accepts a record [v] iff [v] has no IPv4 address or fewer
+   than [limit] OTHER records of the list ([same_subnet_others]: records of the same /24 that are
+   not copies of [v] itself) share its /24: it refuses exactly the changes that would take the
+   count above the limit - no more (no spurious refusal), no less. *)
+Theorem C16_filter_refuses_exactly_at_the_limit :
+  forall limit v others, (0 < limit)%nat ->
+  (ip_filter limit v others = true <->
+   match vsub v with None => True | Some s => (same_subnet_others v s others < limit)%nat end).
+Proof. exact ip_filter_exact. Qed.
+Print Assumptions C16_filter_refuses_exactly_at_the_limit.
+
+(* insert_or_update answers Failed(TableFilter) when the table (pending nodes included) already
+   holds MAX_NODES_PER_SUBNET_TABLE other records of the /24 ... *)
+Theorem C16_insert_refused_at_table_limit :
+  forall c t k v conn inc now i s,
+  tfilter c = Some ip_table_filter ->
+  bucket_index (local t) k = Some i -> vsub v = Some s ->
+  (forall n, get k (nodes (get_bucket t i)) = Some n -> val_eqb (nval n) v = false) ->
+  (LT <= same_subnet_others v s (table_values t))%nat ->
+  snd (t_insert_or_update c t k v conn inc now) = TFailed FTableFilter.
+Proof. intros c t k v conn inc now i s Htf. exact (insert_refused_table c Htf t k v conn inc now i s). Qed.
+Print Assumptions C16_insert_refused_at_table_limit.
+
+(* ... and Failed(BucketFilter), leaving the table as it is (but for the due pending node of the
+   bucket, which every table operation applies first), when the bucket already holds
+   MAX_NODES_PER_SUBNET_BUCKET other nodes of the /24. *)
+Theorem C16_insert_refused_at_bucket_limit :
+  forall c t k v conn inc now i s,
+  bfilter c = Some ip_bucket_filter ->
+  bucket_index (local t) k = Some i -> vsub v = Some s ->
+  passes_table_filter c t k v = true ->
+  position k (nodes (fst (applied_bucket c t i now))) = None ->
+  (LB <= same_subnet_others v s (values (nodes (fst (applied_bucket c t i now)))))%nat ->
+  t_insert_or_update c t k v conn inc now =
+    (set_bucket t i (fst (applied_bucket c t i now)) (snd (applied_bucket c t i now)), TFailed FBucketFilter).
+Proof. intros c t k v conn inc now i s Hbf. exact (insert_refused_bucket c Hbf t k v conn inc now i s). Qed.
+Print Assumptions C16_insert_refused_at_bucket_limit.
+
+(* the hypotheses on the table of Proofs/SubnetExamples.v: ten records of /24 number 7 in buckets
+   5..9, two of them in bucket 5; an eleventh (key 2048, bucket 11) meets the table limit, a third
+   for bucket 5 (key 34) the bucket limit *)
+Example C16_refusal_hypotheses_example :
+  let t := fst (run true sx_cfg (new_table 0) (firstn 11 sx_ops)) in
+  bucket_index (local t) 2048 = Some 11%nat /\ get 2048 (nodes (get_bucket t 11)) = None /\
+  (LT <= same_subnet_others (sx_val 2048) 7 (table_values t))%nat /\
+  let t2 := fst (run true sx_cfg (new_table 0) (firstn 2 sx_ops)) in
+  bucket_index (local t2) 34 = Some 5%nat /\ passes_table_filter sx_cfg t2 34 (sx_val 34) = true /\
+  position 34 (nodes (fst (applied_bucket sx_cfg t2 5 1))) = None /\
+  (LB <= same_subnet_others (sx_val 34) 7 (values (nodes (fst (applied_bucket sx_cfg t2 5 1)))))%nat.
+Proof. vm_compute. repeat split; try reflexivity; Lia.lia. Qed.
+Print Assumptions C16_refusal_hypotheses_example.
+
+(* "nodes without an IPv4 address are unaffected", at the level of the table API: for EVERY table
+   state and every status, insert_or_update of a record without an IPv4 address never answers
+   Failed(TableFilter) nor Failed(BucketFilter) when the two IP filters are the installed ones
+   (and such a record is never counted against any /24: [in_sub s v = false] by definition). *)
+Theorem C16_no_ip_never_refused_by_insert :
+  forall c t k v conn inc now,
+  bfilter c = Some ip_bucket_filter -> tfilter c = Some ip_table_filter -> vsub v = None ->
+  snd (t_insert_or_update c t k v conn inc now) <> TFailed FTableFilter /\
+  snd (t_insert_or_update c t k v conn inc now) <> TFailed FBucketFilter.
+Proof. intros c t k v conn inc now Hb Ht. exact (no_ip_insert_never_filtered c Hb Ht t k v conn inc now). Qed.
+Print Assumptions C16_no_ip_never_refused_by_insert.
+
+Theorem C16_no_ip_not_counted : forall s v, vsub v = None -> in_sub s v = false.
+Proof. intros s v H. unfold in_sub. rewrite H. reflexivity. Qed.
+Print Assumptions C16_no_ip_not_counted.
